@@ -1349,6 +1349,19 @@ class Emitter:
         if path == ['Self', 'from'] and getattr(self, 'uint_mode', False) is True and len(args) == 1 and args[0][0] == 'lit':
             # `Self::from(k)` for a literal: the limbs of k (`from` panics when k does not fit; callers use small k)
             return '(Ruint.toLimbs LIMBS %d)' % args[0][1], 'uint'
+        if path == ['Self', 'try_from'] and getattr(self, 'uint_mode', False) is True and len(args) == 1 \
+                and 'try_from' not in getattr(self, 'call_alias', {}):
+            # `Self::try_from(n)`: the `TryFrom<T> for Uint` impl selected by the argument's type
+            sk, tk = self.expr(args[0], env, None)
+            key = 'Uint::try_from_%s' % (tk,) if isinstance(tk, str) else None
+            if key in self.fns:
+                sig = self.fns[key]
+                ss = ['BITS', 'LIMBS', sk]
+                if len(sig) > 3 and sig[3]:
+                    self.uses_fuel = True
+                    ss = ['fuel'] + ss
+                return '(%s %s)' % (sig[0], ' '.join(ss)), sig[2]
+            raise TranslateError('Self::try_from of a %r before its impl is translated' % (tk,))
         if path[0] == 'Self' and name in getattr(self, 'call_alias', {}):
             # several impls define a function of this name: the item says which one this call resolves to
             sig = self.fns[self.call_alias[name]]
@@ -1486,6 +1499,26 @@ class Emitter:
             # exact on integer arguments — trusted, as in the hand model)
             sn, _ = self.expr(r0[1], env, 'usize')
             return '(Ruint.Float.exp2Int %s %s)' % (FFMT[self.ty(r0[2])], sn), self.ty(r0[2])
+        if name == 'ok' and not args:
+            # `res.ok()`: `Ok(v)` is `Some(v)`, an error is `None`
+            inner_exp = exp[1] if isinstance(exp, tuple) and exp[0] == 'option' else None
+            if recv[0] == 'mcall' and recv[2] == 'try_into' and not recv[3] and isinstance(inner_exp, str):
+                # `self.try_into()` with the target type known from the context: the `TryFrom<&Uint> for T` impl
+                s0, t0 = self.expr(recv[1], env, None)
+                key = '%s::try_from_uint' % inner_exp
+                if t0 == 'uint' and key in self.fns:
+                    sig = self.fns[key]
+                    ss = ['BITS', 'LIMBS', s0]
+                    if len(sig) > 3 and sig[3]:
+                        self.uses_fuel = True
+                        ss = ['fuel'] + ss
+                    return ('(match (%s %s) with\n  | Except.ok v_ => some v_\n  | Except.error _ => none)'
+                            % (sig[0], ' '.join(ss))), ('option', inner_exp)
+                raise TranslateError('try_into() to %r before its impl is translated' % (inner_exp,))
+            sr0, tr0 = self.expr(recv, env, None)
+            if isinstance(tr0, tuple) and tr0[0] == 'result':
+                return '(match %s with\n  | Except.ok v_ => some v_\n  | Except.error _ => none)' % sr0, ('option', tr0[1])
+            raise TranslateError('ok() on a non-Result %r' % (tr0,))
         sr, tr = self.expr(recv, env, exp)
         if tr == 'f64':
             if name == 'is_nan' and not args:
@@ -1746,6 +1779,14 @@ class Emitter:
                 return self.expr(e[2][0], dict(getattr(self, 'cur_env', {})), None)[1] == 'f64'     # the recursive call
             except TranslateError:
                 return False
+        if e[0] == 'call' and e[1] == ['Self', 'try_from'] and len(e[2]) == 1 and getattr(self, 'uint_mode', False) is True \
+                and 'try_from' not in getattr(self, 'call_alias', {}):
+            try:
+                tk = self.expr(e[2][0], dict(getattr(self, 'cur_env', {})), None)[1]
+            except TranslateError:
+                return False
+            sig = self.fns.get('Uint::try_from_%s' % (tk,), ()) if isinstance(tk, str) else ()
+            return len(sig) > 7 and bool(sig[7])
         if e[0] == 'call' and e[1][0] == 'Self' and len(e[1]) == 2 and e[1][1] in getattr(self, 'call_alias', {}):
             sig = self.fns.get(self.call_alias[e[1][1]], ())
             return len(sig) > 7 and bool(sig[7])
@@ -2906,6 +2947,10 @@ class Emitter:
                 if node[0] == 'call' and node[1] == ['Self', 'try_from'] and len(node[2]) == 1 and node[2][0][0] == 'cast' \
                         and node[2][0][2] == 'f64' and 'UintV::try_from_f64' in self.fns and getattr(self, 'uint_mode', False) == 'value':
                     return True             # `Self::try_from(x as f64)`: the (panicking) `TryFrom<f64>`
+                if node[0] == 'call' and node[1] == ['Self', 'try_from'] and getattr(self, 'uint_mode', False) is True \
+                        and 'try_from' not in getattr(self, 'call_alias', {}) \
+                        and any(k.startswith('Uint::try_from_') and len(v) > 7 and v[7] for k, v in self.fns.items()):
+                    return True             # the `TryFrom<T> for Uint` impls assert (`from_limbs`): selected by type at the call
                 if node[0] == 'call' and ('::'.join(node[1]) in getattr(self, 'panic_externs', ())
                                           or node[1][-1] in getattr(self, 'panic_externs', ())):
                     return True
@@ -3665,7 +3710,7 @@ GROUPS = [('core', 'Words', ('Ruint.Gen.Prelude',)),
           ('tofloat', 'WordsToFloat', ('Ruint.Gen.WordsUint', 'Ruint.Model.Float')),
           ('intshift', 'WordsIntShift', ('Ruint.Gen.WordsUint',)),
           ('facade', 'WordsFacade', ('Ruint.Gen.WordsUint', 'Ruint.Gen.WordsUintDiv', 'Ruint.Gen.WordsUintMod', 'Ruint.Gen.WordsIntShift',
-                                     'Ruint.Gen.WordsBytes'))]
+                                     'Ruint.Gen.WordsBytes', 'Ruint.Gen.WordsConv', 'Ruint.Gen.WordsConv2'))]
 
 
 def translate_all(repo):
